@@ -1552,14 +1552,19 @@ Qed.
 End Resume.
 
 (* ================================================================= the theorem *)
-(* the events of a run that is not rerun / skipped by hand: start, every delivery, pause, resume, stop *)
+(* the events of a run that is not rerun / skipped by hand: start, every delivery, duplicated deliveries,
+   pause, resume, stop *)
 Definition live_ev (e : ev) : bool :=
   match e with
   | EStart | EFire _ | EFirePtq _ | EEvict | EPause | EResume | EStop _ => true
+  | EDup i => plain_item i          (* a message of these runs delivered once more *)
   | _ => false
   end.
 
-Definition LInv (s : st) : Prop := (wf_created s = false /\ pend s = []) \/ Wk None s [].
+Definition LInv (s : st) : Prop := (wf_created s = false /\ pend s = [] /\ tasks s = [] /\ acts s = []) \/ Wk None s [].
+
+Lemma set_pend_same s : set_pend s (pend s) = s.
+Proof. destruct s; reflexivity. Qed.
 
 Section Step.
 Variable sp : spec.
@@ -1595,11 +1600,11 @@ Theorem LInv_step s e : live_ev e = true -> LInv s -> LInv (fst (step sp s e)).
 Proof.
   intros He Hs. destruct e; try discriminate He.
   - (* EStart *)
-    destruct Hs as [[Hc Hp]|Hw]; [apply start_W; assumption|].
+    destruct Hs as [[Hc [Hp _]]|Hw]; [apply start_W; assumption|].
     unfold step. rewrite (N_created _ _ _ (proj1 Hw)). right. exact Hw.
   - (* EFire *)
     unfold step. destruct (remove_first (item_eqb i) (pend s)) as [[it rest]|] eqn:Er; [|exact Hs].
-    destruct Hs as [[Hc Hp]|Hw]; [rewrite Hp in Er; discriminate|].
+    destruct Hs as [[Hc [Hp _]]|Hw]; [rewrite Hp in Er; discriminate|].
     destruct (remove_first_spec _ _ _ _ Er) as [Hin [_ [Hsplit Hsub]]].
     pose proof (N_items _ _ _ (proj1 Hw)) as Hit. rewrite forallb_forall in Hit. specialize (Hit _ Hin).
     destruct it as [tid f r x|aid|aid res|ops|tid]; simpl in Hit.
@@ -1611,7 +1616,7 @@ Proof.
     + discriminate.
   - (* EFirePtq *)
     unfold step. destruct (remove_nth_ptq n (pend s)) as [[ops rest]|] eqn:Er; [|exact Hs].
-    destruct Hs as [[Hc Hp]|Hw]; [rewrite Hp in Er; discriminate|].
+    destruct Hs as [[Hc [Hp _]]|Hw]; [rewrite Hp in Er; discriminate|].
     destruct (remove_nth_ptq_spec _ _ _ _ Er) as [Hin [Hsplit Hsub]].
     right. cbn [fst]. apply run_ops_W. apply take_ptq_W; assumption.
   - (* EPause *)
@@ -1625,6 +1630,17 @@ Proof.
     destruct Hs as [[Hc Hp]|Hw]; [unfold step; rewrite Hc; left; split; assumption|].
     unfold step. rewrite (N_created _ _ _ (proj1 Hw)). cbn [negb].
     destruct (stop_workflow s x) as [s1|] eqn:E; [right; eapply stop_W; eassumption|right; exact Hw].
+  - (* EDup *)
+    unfold step. destruct i as [tid f r x|aid|aid res|ops|tid]; try exact Hs; simpl in He.
+    + destruct Hs as [[Hc [Hp [Ht Ha]]]|Hw].
+      * unfold do_start_task. rewrite Ht. simpl. left. repeat split; assumption.
+      * right. rewrite <- (set_pend_same s) at 1.
+        apply (fire_start_W sp Hnj s tid f r x (pend s) He Hw); [intros y Hy; right; exact Hy|auto].
+    + destruct Hs as [[Hc [Hp [Ht Ha]]]|Hw].
+      * unfold do_result. rewrite Ha. simpl. left. repeat split; assumption.
+      * right. pose proof (fire_result_W sp Hnj s aid res (pend s) Hw) as H.
+        rewrite set_pend_same in H. specialize (H (fun y Hy => or_intror Hy) (fun y Hy => Hy)).
+        destruct (do_result sp s aid res) as [s1 o]. destruct o; exact H.
   - (* EEvict *) exact Hs.
 Qed.
 
@@ -1647,7 +1663,7 @@ Theorem no_stuck_joinfree u evs :
 Proof.
   intros He s Hc Hp.
   assert (Hi : LInv s).
-  { unfold s. rewrite run_steps. apply LInv_steps; [exact He|]. left. split; reflexivity. }
+  { unfold s. rewrite run_steps. apply LInv_steps; [exact He|]. left. repeat split; reflexivity. }
   destruct Hi as [[Hc' _]|[Hn Hchk]]; [congruence|].
   assert (Hnone : forall n : nat, None <> Some n) by (intros; discriminate).
   assert (Hno : forall o, ~ op_avail (pend s) [] o).
